@@ -141,6 +141,7 @@ def run(chk):
     from . import shared
     shared.subscribe_once(chk, "R7")
     shared.listener_filter(chk, "R8")
+    shared.notify_params_unchanged(chk, "R8")
     shared.setdata_updates_task(chk, "R9")
     # R10: what the consumer reads are the producer's bits -- the bit-field codec of C05 is a clause of this property
     from . import c05
